@@ -148,6 +148,7 @@ def _run_base(ctx):
 
 
 def run(ctx):
+    ctx.rule('R15.7', 'both implementations apply decisions to a deep copy of base (the web tool re-applies the decisions to the same base object on every save)', floor=2)
     ctx.rule('R15.6', 'where Python re-sorts diff entries while applying decisions / flattening string diffs it orders them by key alone (stable), like TS sortByKey/stableSort and TS applyDecisions, which has no re-combination step', floor=1)
     ctx.rule('R15.5', 'the "cleared value" helper maps every JSON kind to the same result kind on both sides (exhaustive over null/boolean/number/string/array/object)', floor=6)
     _run_base(ctx)
@@ -178,3 +179,21 @@ def run(ctx):
                  'ordered by key only; equal keys keep arrival order, as in the browser' if kind == 'key-only' else
                  'Python breaks ties between entries on the same key with an extra sort criterion; the TypeScript side keeps arrival order '
                  '(sortByKey is a stable sort by key, applyDecisions applies decisions one by one): both sides order e.g. an addrange and a patch on one line differently', call)
+
+    # ---------------------------------------------------------------- R15.7
+    ab = dec.function_body('applyDecisions')
+    toks = [t.text for t in ab]
+    ok_ts = False
+    for i in range(len(toks) - 4):
+        if toks[i] == 'merged' and toks[i + 1] == '=' and toks[i + 2] == 'deepCopy' and toks[i + 3] == '(' and toks[i + 4] == 'base':
+            ok_ts = True
+    first_assign = next((' '.join(toks[i:i + 12]) for i in range(len(toks) - 1) if toks[i] == 'merged' and toks[i + 1] == '='), '<merged is not assigned>')
+    ctx.inst('R15.7', TS + 'merge/decisions.ts:applyDecisions', first_assign[:80], ok_ts,
+             'merged starts as a deep copy of base' if ok_ts else
+             'applyDecisions no longer starts from deepCopy(base): results are written back with parent[lastKey] = patch(...), so the caller\'s base is rewritten '
+             'and the second application (every save of the web tool) applies the decisions to an already merged document; Python deep-copies', None)
+    ap = repo.func(mf.DEC + ':apply_decisions')
+    ok_py = any(isinstance(n, ast.Assign) and isinstance(n.value, ast.Call) and (dotted(n.value.func) or '').endswith('deepcopy') and
+                n.value.args and dotted(n.value.args[0]) == ap.args.args[0].arg for n in walk_no_nested(ap))
+    ctx.inst('R15.7', mf.DEC + ':apply_decisions', 'merged = copy.deepcopy(%s)' % ap.args.args[0].arg, ok_py,
+             'Python applies decisions to a deep copy of base' if ok_py else 'apply_decisions no longer deep-copies base', ap)
